@@ -284,7 +284,7 @@ def take_rules(model, R):
                       f.text, extra={'stray_atoms': stray})
             else:
                 diff = guards.equivalent(f, lambda e: (e[go] and not e[so]) or (e[gp] and not e[sp]), [so, sp, go, gp])
-                R.check(diff is None, 'GUARD', func, test, 'take: KeyError guard',
+                R.decided(diff is None, 'GUARD', func, test, 'take: KeyError guard',
                         f'raise iff ({p_obj} given and not all known) or ({p_prop} given and not all known)', f.text,
                         extra={'differs_at': diff})
         except Unrecognised as e:
@@ -509,7 +509,7 @@ def eq_complete(R, func, fields, roots, slot, allow_fallback=False):
             return
         seen[l[1]] = part
     missing = [f for f in fields if f not in seen]
-    R.check(not missing, 'EQ-COMPLETE', func, v, slot, 'all of ' + ', '.join(fields) + ' compared', 'compares ' + ', '.join(seen) + (f'; missing {missing}' if missing else ''))
+    R.decided(not missing, 'EQ-COMPLETE', func, v, slot, 'all of ' + ', '.join(fields) + ' compared', 'compares ' + ', '.join(seen) + (f'; missing {missing}' if missing else ''))
 
 
 def ne_is_negation(R, func, slot):
@@ -645,13 +645,14 @@ def agreement(model, R):
         fa, fb = model.func(a), model.func(b)
         ra = [src(n.value) for n in walk(fa.body) if isinstance(n, ast.Return)]
         rb = [src(n.value) for n in walk(fb.body) if isinstance(n, ast.Return)]
-        R.check(ra == rb and len(ra) == 1, 'AGREEMENT', fb, fb.node, f'{name} computed the same way by Context and Definition',
-                ra[0] if ra else '?', rb[0] if rb else '?')
+        if len(ra) == 1 and len(rb) == 1:
+            R.returns(fb, ra[0], 'AGREEMENT', f'{name} computed the same way by Context and Definition', expand=False)
+        else:
+            R.unknown('AGREEMENT', fb, fb.node, f'{name} computed the same way by Context and Definition', f'{len(ra)}/{len(rb)} returns')
     for key, want in (('contexts.FormattingMixin.crc32', 'tools.crc32_hex(self.tostring().encode(encoding))'),
                       ('contexts.Context.shape', '_common.Shape._from_pair(self.objects, self.properties)')):
         f = model.func(key)
-        r = [src(n.value) for n in walk(f.body) if isinstance(n, ast.Return)]
-        R.check(r == [want], 'AGREEMENT', f, f.node, f'{key.split(".")[-1]} definition', want, r[0] if r else '?')
+        R.returns(f, want, 'AGREEMENT', f'{key.split(".")[-1]} definition', expand=False)
     # tostring: both end in Format[frmat].dumps(objects, properties, bools, ...)
     fa = model.func('contexts.FormattingMixin.tostring')
     fb = model.func('definitions.FormattingMixin.tostring')
@@ -672,9 +673,7 @@ def agreement(model, R):
         R.check(const(d) == 'table', 'API-DEFAULT', f, d or f.node, 'tostring default format', "'table'", src(d))
     # fill_ratio
     f = model.func('definitions.Definition.fill_ratio')
-    r = [src(n.value) for n in walk(f.body) if isinstance(n, ast.Return)]
-    R.check(r == ['fractions.Fraction(len(self._pairs), self.shape.size)'], 'AGREEMENT', f, f.node,
-            'Definition.fill_ratio = true cells / size', 'fractions.Fraction(len(self._pairs), self.shape.size)', r[0] if r else '?')
+    R.returns(f, 'fractions.Fraction(len(self._pairs), self.shape.size)', 'AGREEMENT', 'Definition.fill_ratio = true cells / size')
     f = model.func('contexts.Context.fill_ratio')
     env = Env(f)
     rets = [n for n in walk(f.body) if isinstance(n, ast.Return)]
